@@ -1113,7 +1113,9 @@ def jigg_call_site(I, prop):
 # ---------------------------------------------------------------------------- replay of refuted / undecided obligations on the real code
 REPLAY_KEYS = {'depccg/printer/conll.py::_resolve_dependencies': 'depccg/printer/conll.py::_resolve_dependencies',
                'depccg/printer/xml.py::_process_tree': 'depccg/printer/xml.py::_process_tree',
-               'depccg/printer/jigg_xml.py::_ConvertToJiggXML.process': 'depccg/printer/jigg_xml.py::_ConvertToJiggXML.process'}
+               'depccg/printer/jigg_xml.py::_ConvertToJiggXML.process': 'depccg/printer/jigg_xml.py::_ConvertToJiggXML.process',
+               'depccg/printer/auto.py::auto_of': 'depccg/printer/auto.py::auto_of',
+               'depccg/tools/reader.py::_AutoLineReader': 'depccg/tools/reader.py::_AutoLineReader'}
 
 
 def replay_views(records):
